@@ -37,6 +37,37 @@ func (c10) Assumptions() []string {
 type c10Case struct {
 	Inputs  []string `json:"inputs"`   // H+
 	Failing []bool   `json:"is_failing"`
+	Depth   int      `json:"max_depth,omitempty"` // 0: the 200 used by the random sessions; -1: grol's default limit
+}
+
+// c10Deep are failing inputs that fail far down the stack or after a long time, for sessions run under the default
+// depth limit; the inputs after them probe capacities a leftover would reduce (depth, nesting, registers, memory,
+// memoized results).
+var c10Deep = []string{
+	`(func(n) {1 + self(n + 1)})(0)`,
+	`(() => { func zz_rec(n) {zz_rec(n + 1)}; zz_rec(0) })()`,
+	`(() => { func zz_rec3(n) {[zz_rec3(n + 1)]}; zz_rec3(0) })()`,
+	`(n => { if n > 0 { 1 + self(n - 1) } else { verif_panic() } })(20000)`,
+	`(n => { if n > 0 { 1 + self(n - 1) } else { 1 / 0 } })(20000)`,
+	`(n => { if n > 0 { [self(n - 1)] } else { for true {} } })(20000)`,
+	`zz_outer(3000000)`, // deadline inside a memoizable function
+	`(() => { for za = 2 { for zb = 2 { for zc = 2 { for zd = 2 { for ze = 2 { for zf = 2 { for zg = 2 { [1] * 1152921504606846976 } } } } } } } })()`,
+}
+
+var c10DeepSetup = []string{
+	`func zz_down(n) {if n <= 0 {return 0}; 1 + zz_down(n - 1)}`,
+	`func zz_burn(n) {t = 0; for i = n {t = t + i}; t}`,
+	`func zz_outer(n) {zz_burn(n) + 1}`,
+	`zz_down(100)`,
+}
+
+var c10DeepProbes = []string{
+	`zz_down(30000)`,
+	`zz_outer(3000000)`,
+	`zz_burn(3000000)`,
+	`for p1 = 2 { for p2 = 2 { for p3 = 2 { for p4 = 2 { for p5 = 2 { for p6 = 2 { for p7 = 2 { for p8 = 2 { if p1 + p2 + p3 + p4 + p5 + p6 + p7 + p8 == 8 { println("all") } } } } } } } } }`,
+	`len([0] * 4000000)`,
+	`println("still", "here")`,
 }
 
 var c10Failing = []string{
@@ -61,11 +92,19 @@ var c10Failing = []string{
 	`)`,
 }
 
-func c10IsDeadline(s string) bool { return strings.Contains(s, "for true {}") }
+func c10IsDeadline(s string) bool {
+	return strings.Contains(s, "for true {}") || s == "zz_outer(3000000)"
+}
 
-func (p c10) run(inputs []string, failing []bool) []runOut {
+func (p c10) run(inputs []string, failing []bool, depth int) []runOut {
 	ss := newSession(false)
-	ss.s.MaxDepth = 200
+	switch depth {
+	case 0:
+		ss.s.MaxDepth = 200
+	case -1: // keep the default
+	default:
+		ss.s.MaxDepth = depth
+	}
 	outs := make([]runOut, len(inputs))
 	for i, in := range inputs {
 		d := 5 * time.Second
@@ -77,7 +116,7 @@ func (p c10) run(inputs []string, failing []bool) []runOut {
 	return outs
 }
 
-func (p c10) compare(c *fw.Ctx, plus []string, failing []bool) {
+func (p c10) compare(c *fw.Ctx, plus []string, failing []bool, depth int) {
 	c.Eval(1)
 	var base []string
 	for i, in := range plus {
@@ -85,8 +124,8 @@ func (p c10) compare(c *fw.Ctx, plus []string, failing []bool) {
 			base = append(base, in)
 		}
 	}
-	a := p.run(base, nil)
-	b := p.run(plus, failing)
+	a := p.run(base, nil, depth)
+	b := p.run(plus, failing, depth)
 	if anyTimeout(a) {
 		c.Count("timeouts_skipped", 1)
 		return
@@ -134,7 +173,7 @@ func (p c10) compare(c *fw.Ctx, plus []string, failing []bool) {
 					}
 				}
 			}
-			c.Violate("trace-left", "trace|after:"+strings.Join(kinds, "+"), c10Case{Inputs: plus, Failing: failing},
+			c.Violate("trace-left", "trace|after:"+strings.Join(kinds, "+"), c10Case{Inputs: plus, Failing: failing, Depth: depth},
 				fmt.Sprintf("input %q: without the failing inputs %s; with them %s", clip(plus[i]), outStr(a[j]), outStr(b[i])))
 			return
 		}
@@ -148,6 +187,7 @@ func (p c10) compare(c *fw.Ctx, plus []string, failing []bool) {
 func (p c10) RunBatch(c *fw.Ctx) {
 	InitGrol(nil)
 	registerHarnessExtensions()
+	p.deepFamily(c)
 	n := c.Pick(500, 15000)
 	for i := 0; i < n; i++ {
 		g := gt.NewGen(c.Rng)
@@ -178,9 +218,43 @@ func (p c10) RunBatch(c *fw.Ctx) {
 			failing = append(failing, false)
 		}
 		c.Begin(c10Case{Inputs: plus, Failing: failing})
-		p.compare(c, plus, failing)
+		p.compare(c, plus, failing, 0)
 		if i == 0 {
 			c.Sample(map[string]any{"history_with_failing_inputs": plus[:min(len(plus), 20)]})
+		}
+	}
+}
+
+// deepFamily: sessions under the default depth limit whose failing inputs fail deep in the stack.
+func (p c10) deepFamily(c *fw.Ctx) {
+	idx := 0
+	mults := []int{1, 2}
+	if c.Tier == "thorough" {
+		mults = []int{1, 2, 3, 5}
+	}
+	for _, f := range c10Deep {
+		for _, m := range mults {
+			idx++
+			if idx%c.NBatches != c.Batch {
+				continue
+			}
+			var plus []string
+			var failing []bool
+			for _, in := range c10DeepSetup {
+				plus = append(plus, in)
+				failing = append(failing, false)
+			}
+			for k := 0; k < m; k++ {
+				plus = append(plus, f)
+				failing = append(failing, true)
+			}
+			for _, in := range c10DeepProbes {
+				plus = append(plus, in)
+				failing = append(failing, false)
+			}
+			c.Begin(c10Case{Inputs: plus, Failing: failing, Depth: -1})
+			p.compare(c, plus, failing, -1)
+			c.Count("deep_family_sessions", 1)
 		}
 	}
 }
@@ -192,5 +266,5 @@ func (p c10) ReplayCase(c *fw.Ctx, input json.RawMessage) {
 	if err := json.Unmarshal(input, &cs); err != nil || len(cs.Inputs) != len(cs.Failing) {
 		return
 	}
-	p.compare(c, cs.Inputs, cs.Failing)
+	p.compare(c, cs.Inputs, cs.Failing, cs.Depth)
 }
